@@ -2,6 +2,7 @@ package util
 
 import (
 	"bytes"
+	"github.com/brutella/hc/verifhook"
 	"io/ioutil"
 	"os"
 	"path"
@@ -44,6 +45,9 @@ func NewFileStorage(dir string) (Storage, error) {
 // of Set, the key holds either its previous or the new value in full – never
 // an empty, truncated or mixed value.
 func (f *fileStorage) Set(key string, value []byte) error {
+	verifhook.At("storage.set.enter")
+	defer verifhook.At("storage.set.done")
+
 	path := f.filePathToFile(key)
 	tmpPath := filepath.Join(filepath.Dir(path), tempFilePrefix+RandomHexString())
 
@@ -70,6 +74,9 @@ func (f *fileStorage) Set(key string, value []byte) error {
 
 // Get returns the value for a specific key.
 func (f *fileStorage) Get(key string) ([]byte, error) {
+	verifhook.At("storage.get.enter")
+	defer verifhook.At("storage.get.done")
+
 	file, err := f.fileForRead(key)
 
 	if err != nil {
@@ -94,6 +101,9 @@ func (f *fileStorage) Get(key string) ([]byte, error) {
 
 // Delete removes the file for the corresponding key.
 func (f *fileStorage) Delete(key string) error {
+	verifhook.At("storage.delete.enter")
+	defer verifhook.At("storage.delete.done")
+
 	return os.Remove(f.filePathToFile(key))
 }
 
